@@ -218,6 +218,7 @@ func genTime(t time.Time, zero bool) asn1.RawValue {
 
 type tokOpts struct {
 	noNonce, empty, junk, dwrap, badsig, zeroTime bool
+	padSerial                                     int
 }
 
 func signP7(id ident, ctype asn1.ObjectIdentifier, content interface{}, sigTime *time.Time) *pkcs7.ContentInfoSignedData {
@@ -265,6 +266,9 @@ func issueRFC(id ident, alg pkix.AlgorithmIdentifier, hashed []byte, nonce *big.
 	}
 	if o.noNonce {
 		info.Nonce = nil
+	}
+	if o.padSerial > 0 {
+		info.SerialNumber = new(big.Int).Add(new(big.Int).Lsh(big.NewInt(1), uint(8*o.padSerial+12)), big.NewInt(serial))
 	}
 	der, err := asn1.Marshal(info)
 	if err != nil {
@@ -465,6 +469,13 @@ func (t *tsaServer) handle(w http.ResponseWriter, r *http.Request) {
 	trailing := false
 	var psd *pkcs7.ContentInfoSignedData
 	serial := int64(5000 + idx)
+	padBytes := 0
+	if strings.HasPrefix(beh, "pad") {
+		// a valid reply whose token is k bytes longer (a longer serial number): the sites that store the token in a
+		// framed form (base64 lines of 48 bytes in ClickOnce manifests) meet every residue of the length
+		padBytes = int(hx.Atoi(beh[3:]))
+		beh = "valid"
+	}
 	switch beh {
 	case "valid":
 	case "mods":
@@ -503,6 +514,7 @@ func (t *tsaServer) handle(w http.ResponseWriter, r *http.Request) {
 	}
 	resp := pkcs9.TimeStampResp{Status: pkcs9.PKIStatusInfo{Status: status}}
 	if (status <= 1 && beh != "notoken") || strings.HasPrefix(beh, "rejtok") {
+		o.padSerial = padBytes
 		psd = issueRFC(id, alg, hashed, nonce, at, serial, o)
 		record(psd)
 		resp.TimeStampToken = *psd
@@ -1267,32 +1279,49 @@ func opMV(f []string) (out string) {
 
 // Impl answers ops on stdin.
 func Impl() {
+	setupOnce.Do(setupImpl)
+	defer tsa.srv.Close()
+	hx.EachLine(dispatchOp)
+}
+
+var setupOnce sync.Once
+
+func setupImpl() {
 	zerolog.SetGlobalLevel(zerolog.Disabled)
 	log.SetFlags(0)
 	log.SetOutput(logs)
 	initPKI()
 	startTSA()
-	defer tsa.srv.Close()
-	hx.EachLine(func(f []string) string {
-		if len(f) < 1 {
-			return "bad-op"
-		}
-		switch f[0] {
-		case "ts":
-			return opTS(f[1:])
-		case "off":
-			return opOff(f[1:])
-		case "cache":
-			return opCache(f[1:])
-		case "vc":
-			return opVC(f[1:])
-		case "mv":
-			return opMV(f[1:])
-		case "keep":
-			return OpKeep(f[1:])
-		}
-		return "bad-op"
+}
+
+// Handle runs one C10 op from the shared dispatcher (properties that reuse C10 ops: C16's token-embedding ops)
+func Handle(f []string) string {
+	setupOnce.Do(func() {
+		setupImpl()
+		hx.OnExit(func() { tsa.srv.Close() })
 	})
+	return dispatchOp(f)
+}
+
+func dispatchOp(f []string) string {
+	if len(f) < 1 {
+		return "bad-op"
+	}
+	switch f[0] {
+	case "ts":
+		return opTS(f[1:])
+	case "off":
+		return opOff(f[1:])
+	case "cache":
+		return opCache(f[1:])
+	case "vc":
+		return opVC(f[1:])
+	case "mv":
+		return opMV(f[1:])
+	case "keep":
+		return OpKeep(f[1:])
+	}
+	return "bad-op"
 }
 
 // ---------------------------------------------------------------------------------------------
@@ -1332,6 +1361,13 @@ func Gen(w *bufio.Writer, seed uint64, tier string) {
 	ts("rfc", "manifestec", 0, []string{"valid"})
 	ts("legacy", "manifestec", 0, []string{"valid"})
 	ts("rfc", "manifestec", 0, []string{"wimprint", "valid"})
+	// token lengths through every residue of the 48-byte base64 lines of as:Timestamp (and of any other framing)
+	for k := 1; k <= 50; k++ {
+		ts("rfc", "manifest", 0, []string{fmt.Sprintf("pad%d", k)})
+	}
+	for _, k := range []int{7, 23, 48} {
+		ts("rfc", "p7", 0, []string{fmt.Sprintf("pad%d", k)})
+	}
 	// (b) every single behaviour alone, every flow
 	for _, b := range rfcBehaviours {
 		for _, fl := range []string{"p7", "p7ac", "manifest"} {
